@@ -888,14 +888,15 @@ def compare_denotations(chk, mechanism, triples, denoted):
 STR = {"type": "string"}
 
 
-def build_schema(base_url):
+def build_schema(base_url, sanitize=False):
     def p(name, loc, required=False):
         return {"name": name, "in": loc, "required": required or loc == "path", "schema": STR}
 
     paths = {
         "/items/{id}": {
             "get": {"parameters": [p("id", "path"), p("q", "query"), p("f[0]", "query"), p("X-Token", "header"),
-                                   p("X-Empty", "header"), p("Accept", "header"), p("sid", "cookie")],
+                                   p("X-Empty", "header"), p("Accept", "header"), p("sid", "cookie"),
+                                   p("api_key", "query"), p("X-API-Key", "header")],
                     "responses": {"200": {"description": "OK"}}},
             "delete": {"parameters": [p("id", "path"), p("If-Match", "header")], "responses": {"200": {"description": "OK"}}},
             "put": {"parameters": [p("id", "path"), p("X-Token", "header")],
@@ -923,7 +924,7 @@ def build_schema(base_url):
     }
     raw = {"openapi": "3.0.2", "info": {"title": "t", "version": "1"}, "paths": paths}
     schema = schemathesis.openapi.from_dict(raw).configure(base_url=base_url)
-    schema.output_config.sanitize = False
+    schema.output_config.sanitize = sanitize
     return schema
 
 
@@ -1085,6 +1086,140 @@ def corr_as_curl(chk, drv, tbl, auto, variants, n):
     denoted = judge_commands(chk, drv, "as_curl", items, tbl, auto)
     compare_denotations(chk, "as_curl", triples, denoted)
 
+
+
+# ---- output sanitization enabled ---------------------------------------------------------------------------------
+
+SENSITIVE_NAMES = ["Authorization", "X-API-Key", "X-Token", "Cookie", "X-Auth", "Session-Id", "X-Secret-Thing", "KEY", "X-Monkey",
+                   "Set-Cookie", "x-csrftoken", "Passwd", "X-Credential-Id", "api_key", "Tokens"]
+
+
+def live_san_config():
+    from schemathesis.core.output import sanitization
+    cfg = sanitization._DEFAULT_SANITIZATION_CONFIG
+    return {"keys": sorted(cfg.keys_to_sanitize), "markers": sorted(cfg.sensitive_markers), "replacement": cfg.replacement}
+
+
+def corr_sanitize_value(chk, drv, n):
+    """sanitize_value on flat string mappings (what prepare_request applies to the headers) vs sanitizeFlat"""
+    from schemathesis.core.output.sanitization import sanitize_value
+    rng = chk.rng
+    cfg = live_san_config()
+    if not all(x.isascii() for x in cfg["keys"] + cfg["markers"]):
+        raise InfraError("sanitization keys outside ASCII: the model's lower() is ASCII-only")
+    hss = []
+    for _ in range(n):
+        hs = {}
+        for _ in range(rng.choice([1, 2, 3, 5])):
+            k = rng.choice(SENSITIVE_NAMES + HEADER_NAMES[:8] + ["Accept", "User-Agent"])
+            k = rng.choice([k, k.lower(), k.upper()])
+            hs[k] = rng.choice(HEADER_VALUES + [cfg["replacement"]])
+        hss.append([[k, v] for k, v in hs.items()])
+    outs = drv.one("sanitize", {**cfg, "hss": hss})
+    for hs, m in zip(hss, outs):
+        d = {k: v for k, v in hs}
+        sanitize_value(d)
+        impl = [[k, v] for k, v in d.items()]
+        chk.case("sanitize_value", key=hs, nontrivial=impl != hs, sample={"in": hs, "impl": impl})
+        chk.feature(f"sanitize_value:redacted={min(sum(1 for a, b in zip(hs, impl) if a != b), 3)}")
+        if impl != m:
+            chk.disagreement("sanitize_value", {"headers": hs, "config": cfg}, m, impl)
+
+
+def validate_form_decoder(chk, drv, n):
+    """the specification's form decoder (query strings are compared decoded) against urllib"""
+    from urllib.parse import unquote_to_bytes
+    rng = chk.rng
+    pool = list("ab+%= &09AFafgG") + ["%", "%4", "%41", "%C3%A9", "é", "%2", "%zz", "%%", "+"]
+    texts = ["".join(rng.choice(pool) for _ in range(rng.randint(0, 8))) for _ in range(n)]
+    texts += ["%", "%4", "%41", "%4g", "%%41", "a+b", "%2Fx+y%2Fa+b", "%5BFiltered%5D", "%e9", "%E9%"]
+    for t, m in zip(texts, drv.one("formdecode", {"ss": texts})):
+        chk.case("form-decoder-spec", key=t, nontrivial="%" in t or "+" in t)
+        want = list(unquote_to_bytes(t.replace("+", " ")))
+        if m != want:
+            raise InfraError(f"specification formDecode differs from urllib on {t!r}: spec={m} urllib={want}")
+
+
+def corr_sanitized(chk, drv, tbl, auto, n):
+    """Case.as_curl_command with output sanitization enabled (the default of a schema) on real cases: the command is
+    judged by the specification's clause for it (`reproducesRedacted`: only values shown as the replacement text may
+    differ) against the request that is really sent."""
+    from urllib.parse import parse_qsl, quote
+    rng = chk.rng
+    schema = build_schema("http://127.0.0.1:1/api", sanitize=True)
+    plain = build_schema("http://127.0.0.1:1/api")
+    repl = live_san_config()["replacement"]
+    markers = [repl]        # (query values are compared decoded, so one spelling suffices)
+    session = requests.Session()
+    user_pool = USER_HEADERS + [{"Authorization": "Bearer s3cr3t"}, {"X-API-Key": "k'ey $x"}, {"X-Auth": "a b", "X-Tenant": "acme"},
+                                {"Cookie": "session=abc"}, {"X-Monkey": "banana"}]
+    items = []
+    for _ in range(n):
+        op, kw = gen_case(rng, schema)
+        user = rng.choice(user_pool)
+        verify = rng.random() < 0.8
+        flow = rng.choice(["recorded", "direct", "session"])
+        try:
+            case = op.Case(**kw)
+            cmd, sent, passed = command_for(case, user, flow, verify, session)
+            # the same case under a schema without sanitization: what is printed when nothing is redacted
+            pcase = plain[op.path][op.method.upper()].Case(**kw)
+            pcmd = pcase.as_curl_command(headers=passed, verify=verify)
+        except Exception as e:  # noqa: BLE001
+            chk.case("sanitized", key=[str(kw), str(user)], nontrivial=False)
+            chk.feature(f"sanitized:rejected:{type(e).__name__}")
+            continue
+        rin = {**case_input(op, kw, user, flow, verify), "sanitize": True}
+        chk.case("sanitized", key=rin, nontrivial=True, sample={"in": rin, "impl": cmd})
+        chk.feature(f"sanitized:replacement-shown={repl in cmd or quote(repl, safe='') in cmd}")
+        chk.feature(f"sanitized:differs-from-the-plain-command={canon_boundary(cmd) != canon_boundary(pcmd)}")
+        text, is_text = text_of(sent.body)
+        cmd = canon_boundary(cmd)
+        orig = canon_original({"method": str(sent.method), "url": str(sent.url), "body": text, "verify": verify,
+                               "headers": [[str(k), str(v)] for k, v in sent.headers.items()], "known": list(case.headers or {})})
+        ascii_headers = all(str(v).isascii() for v in sent.headers.values())
+        items.append((cmd, orig, is_text and ascii_headers and "\0" not in cmd, rin))
+    outs = drv.batch([("judgeredacted", {"clients": auto.clients, "markers": markers, "orig": _wire_orig(it[1]), "cmd": it[0]})
+                      for it in items])
+    for (cmd, orig, scope, rin), j in zip(items, outs):
+        if "__err__" in j:
+            raise InfraError(f"judgeredacted failed on {cmd!r}: {j}")
+        if not scope:
+            chk.feature("sanitized:out-of-scope")
+            continue
+        chk.feature("sanitized:replayed")
+        if j["ok"]:
+            chk.feature("sanitized:reproduced-up-to-redaction" + ("" if not j["ok_plain"] else "-nothing-redacted"))
+            continue
+        # label: what differs although it is not shown as the replacement
+        sem = j["sem"]
+        if sem is None or sem["kind"] != "request":
+            aspect, what = "not-one-request", f"the command denotes {sem and sem['kind']}"
+        elif sem["method"] != orig["method"] or (sem["body"] or None) != (orig["body"] or None) or sem["insecure"] == orig["verify"]:
+            aspect, what = "method-body-or-insecure-differs", "method, body or --insecure differ"
+        elif (sem["url"].partition("#")[0].split("?")[0] != orig["url"].partition("#")[0].split("?")[0]
+              or sem["url"].partition("#")[2] != orig["url"].partition("#")[2]):
+            aspect, what = "url-differs-outside-the-query", f"url {sem['url']!r} instead of {orig['url']!r}"
+        elif sem["url"] != orig["url"] and not all(
+                a is not None and b is not None and a[0] == b[0] and (a[1] == b[1] or b[1] in markers)
+                for a, b in itertools.zip_longest(
+                    parse_qsl(orig["url"].partition("#")[0].partition("?")[2], keep_blank_values=True),
+                    parse_qsl(sem["url"].partition("#")[0].partition("?")[2], keep_blank_values=True))):
+            aspect, what = "query-differs-in-a-value-not-shown-as-redacted", f"url {sem['url']!r} instead of {orig['url']!r}"
+        else:
+            shown = {k: v for k, v in sem["headers"]}
+            lost = [[k, v] for k, v in orig["headers"] if k not in shown and not is_auto(j["auto"], k, v)]
+            invented = [[k, v] for k, v in sem["headers"] if k not in {n for n, _ in orig["headers"]}]
+            changed = [[k, v, shown[k]] for k, v in orig["headers"] if k in shown and shown[k] != v and shown[k] not in markers]
+            if lost:
+                aspect, what = "header-lost", f"headers {lost} of the original are not sent by the command"
+            elif invented:
+                aspect, what = "header-invented", f"headers {invented} are sent but are not headers of the original"
+            else:
+                aspect, what = "header-differs-in-a-value-not-shown-as-redacted", f"[name, original, shown]: {changed}"
+        chk.feature(f"sanitized:violation:{aspect}")
+        chk.violation(f"C09:as_curl_command:sanitized:{aspect}", what,
+                      {"kind": "command", "mechanism": "sanitized", "input": rin, "command": cmd, "original": orig, "spec": j})
 
 # ---- specification validation ------------------------------------------------------------------------------------
 
@@ -2112,6 +2247,9 @@ def _run_with(chk, rec):
         "sample_with_foreign_header_fails + parent_request_witness: a command carrying a non-automatic header of another "
         "request (the parent's credentials) never reproduces the failing request",
         "indented_command_reads_the_same, report_line_reproduces: the indented line of the report reads as the same command",
+        "redacted_is_weaker, redacted_accepts_only_replacements, sanitized_command_reproduces_redacted (+ sanitized_witness): "
+        "with sanitization enabled the command printed for the request with redacted header values sends the original up to "
+        "the values shown as the replacement text, and the clause accepts nothing else",
         "spec_table_is_may_omit: the specification's table of automatic fields (from the measured clients and the "
         "original) says exactly: curl sends the same field by itself, or it is a transport artefact",
         "excluded_only_automatic: the table get_excluded_headers() builds (dict display + CaseInsensitiveDict over any "
@@ -2127,7 +2265,11 @@ def _run_with(chk, rec):
         "requests.Request.prepare (URL quoting, header validation, body encoding) is an input of the model, not modelled: "
         "the theorems assume wf (token-like header names without ':' ';' leading '@', values without leading blank, URL "
         "without glob characters, method a shell-safe word); wf is measured on every real prepared request of the run",
-        "sanitization-on clause of the property (only redacted values differ) is not covered",
+        "sanitization-on clause: stated (reproducesRedacted: header values and query values may be shown as the replacement "
+        "text, nothing else may differ; query strings compared form-decoded) and proved for the header redaction of "
+        "prepare_request (sanitizeFlat = sanitize_value on a flat mapping) with the URL redaction as a hypothesis; "
+        "sanitize_url / the redaction of params and cookies before requests encodes them are run, not modelled; a URL with "
+        "userinfo is not generated",
         "bytes.decode(errors='replace') on invalid UTF-8 is modelled and compared exhaustively on short byte strings; "
         "what it does to non-text payloads is outside the property",
         "multipart/binary payloads that are not valid UTF-8 are outside the property and only counted",
@@ -2143,9 +2285,15 @@ def _run_with(chk, rec):
         "Statistic.on_scenario_finished (grouping by test case, unique-failure bookkeeping) and format_failures are run on "
         "every recorder (generated histories and engine runs) and the command shown under 'Test Case ID: k' is judged "
         "against the request of k; they are not modelled",
-        "real engine runs (unit phases, ignored_auth + a case-deriving check, loopback server): 8 quick / 80 thorough "
-        "configurations; the stateful executor's validate_response is driven directly with scripted checks, no real "
-        "state-machine run",
+        "real engine runs (unit phases and, for a third of the configurations, the stateful phase over a pair of linked "
+        "operations; ignored_auth + a case-deriving check + an always-failing check; configured headers with explicit values "
+        "for Accept / Accept-Encoding / User-Agent / Connection; loopback server): 8 quick / 80 thorough configurations, every "
+        "code sample judged against the request the server received; in generated histories the stateful executor's "
+        "validate_response is driven directly with scripted checks",
+        "what the clients add on their own (Clients) and curl's own fields (curlOwn / curlWire: compared with everything the "
+        "real curl sends on every argv of the curl-spec run) are measurements; ClientsAgree is checked, not proved",
+        "Case.as_curl_command with sanitization enabled on real cases (600 quick / 6000 thorough), judged by reproducesRedacted "
+        "against the request really sent; the form decoder of the specification against urllib",
     ]
     chk.assumptions += [
         "a prepared request satisfies wf: requests' check_header_validity (no leading whitespace, no CR/LF, no ':' in "
@@ -2177,6 +2325,9 @@ def _run_with(chk, rec):
     corr_generate(chk, drv, tbl, auto, variants, chk.budget(1500, 15000), wf_only=True, mechanism="generate-wf")
     corr_as_curl(chk, drv, tbl, auto, variants, chk.budget(1500, 12000))
     corr_recorder(chk, drv, tbl, auto, variants, chk.budget(400, 4000))
+    corr_sanitize_value(chk, drv, chk.budget(1500, 15000))
+    validate_form_decoder(chk, drv, chk.budget(1500, 15000))
+    corr_sanitized(chk, drv, tbl, auto, chk.budget(600, 6000))
 
     # 3. the specifications against the real sh / curl
     validate_sh_spec(chk, drv)
@@ -2248,7 +2399,7 @@ def _replay(chk, data):
     elif "url" in inp:
         cmd = impl_generate(inp)
     elif "case" in inp:
-        schema = build_schema("http://127.0.0.1:1/api")
+        schema = build_schema("http://127.0.0.1:1/api", sanitize=bool(inp.get("sanitize")))
         flow = "recorded" if inp["flow"] in ("recorded", "loopback") else inp["flow"]
         cmd, sent, _ = command_for(rebuild_case(schema, inp), inp["user_headers"], flow, inp["verify"], requests.Session())
         if inp["flow"] == "loopback":
@@ -2261,7 +2412,13 @@ def _replay(chk, data):
     if cmd is not None and rp.get("original") is not None:
         print("impl now:", cmd)
         print("real sh :", sh_command_argv(cmd))
-        print("spec    :", _judge_one(drv, auto, rp["original"], cmd))
+        if inp.get("sanitize"):
+            j = drv.one("judgeredacted", {"clients": auto.clients, "markers": [live_san_config()["replacement"]],
+                                          "orig": _wire_orig(rp["original"]), "cmd": canon_boundary(cmd)})
+            print("spec (sanitization enabled: only values shown as the replacement may differ):",
+                  {k: j[k] for k in ("ok", "ok_plain", "sem")})
+        else:
+            print("spec    :", _judge_one(drv, auto, rp["original"], cmd))
     return 0
 
 
